@@ -11,7 +11,7 @@ LOGS = os.path.join(VERIF, "logs")
 KNOWN = os.path.join(VERIF, "known_findings.json")
 
 TOTAL_MEM_GB = 50          # budget for concurrently running CBMC jobs (machine: 62 GB, no swap)
-KANI_FLAGS = ["-Z", "unstable-options", "--no-memory-safety-checks", "--no-assertion-reach-checks"]
+KANI_FLAGS = ["-Z", "unstable-options", "-Z", "stubbing", "--no-memory-safety-checks", "--no-assertion-reach-checks"]
 CBMC_FLAGS = ["--cbmc-args", "--unwindset", "memcmp.0:18", "--max-field-sensitivity-array-size", "1024"]
 
 ENV = dict(os.environ)
